@@ -1,6 +1,7 @@
 (* C16 property theorems (statements only; proofs are `exact`/short compositions of HOF.v / Proofs.v lemmas). *)
 From Coq Require Import ZArith List Bool Arith Lia Permutation Sorted.
 From EP Require Import C16.HOF C16.Model C16.Proofs.
+From EP Require Gen.C16Shape.
 Import ListNotations.
 Open Scope Z_scope.
 
@@ -66,3 +67,9 @@ Example C16_nonvacuous :
   eval 10 (ESort (ELit [3; 1; 2; 1]) (ELam [0%nat] (ESub (ELit [0]) (EVar 0)))) [] = Some [VInt 3; VInt 2; VInt 1; VInt 1] /\
   eval 10 (EFoldR (ELit [1; 2; 3]) (ELit [0]) (ELam [0%nat; 1%nat] (ESub (EVar 0) (EVar 1)))) [] = Some [VInt 2].
 Proof. vm_compute. repeat split; reflexivity. Qed.
+
+(* the statements of /repo that the hand model mirrors are present in the source as read on this run (T-data,
+   harness/shape.py -> Gen/C16Shape.v) *)
+Theorem C16_source_shape : Gen.C16Shape.shape_ok = true.
+Proof. reflexivity. Qed.
+Print Assumptions C16_source_shape.
